@@ -11,8 +11,16 @@
   Every closure clause of `KRel` is closed under replacing the closure environment by one that
   agrees with it on the typed free variables of the closure body ("ideal environment" `ρ0`): all
   weakening lemmas are then immediate.
+  * `KRelD n k cv`  the same for stacks that expect a CODATA value (top frame `dtorScrut` / `dtorApply`):
+                    `cv` is a destructor value `d(Vs; cv')` (the Core machine has evaluated the pure
+                    arguments; the Fun machine evaluates them when the scrutinee returns), or a closure
+                    `μ~x.share_k(…)` / `μ~x.⟨x | c⟩` that forwards its argument to such a consumer;
+    `KAny`          a consumer value of either kind; `CRel.mkD`, `CRel.dtor`: consumer TERMS of a codata
+                    type (a covariable, a lifted continuation; the destructor `d(⟦args⟧; c)` itself, none of
+                    whose arguments has been evaluated yet by either machine).
   * `SRel`          the relation on machine states (Fun `eval` states only; the other Fun states are
-                    crossed inside a chunk, see Scc.Fun2Core.SemBase).
+                    crossed inside a chunk, see Scc.Fun2Core.SemBase).  The typing of the Fun state
+                    (`STM`, Scc/Fun2Core/SemCodTyping.lean) is carried next to it (`RT`, SemSim12.lean).
 -/
 import Scc.Fun2Core.SemPure
 import Scc.Fun2Core.Fresh
@@ -109,6 +117,12 @@ structure ClausesNames (cs : Fun.Clauses) (st : CompileState) : Prop where
   bd : ∀ x ∈ binderNamesClauses cs, x ∈ st.usedVars
   nosig : sig ∉ st.usedVars
 
+/-- names of an argument list -/
+structure ArgsNames (args : Fun.Terms) (st : CompileState) : Prop where
+  fv : ∀ x ∈ fvArgs args, x ∈ st.usedVars
+  bd : ∀ x ∈ binderNamesArgs args, x ∈ st.usedVars
+  nosig : sig ∉ st.usedVars
+
 /-- `cs' = ` the clauses of a `case` translated with the consumer `c` -/
 def CompiledCl (q : Core.Prog) (n : Nat) (cs : Fun.Clauses) (c : Core.Term) (cs' : Core.Clauses) : Prop :=
   ∃ st st', compileClauses cs c st = .ok (cs', st') ∧ StOK q st' ∧ ClausesNames cs st ∧ ConsNames c st n
@@ -125,14 +139,14 @@ def Inert : Core.Term → Prop
 
 /-! ## the relations -/
 
-variable (G : Fun.Term → Prop) (q : Core.Prog)
+variable (G : Fun.Term → Prop) (p : Fun.CheckedProgram) (q : Core.Prog)
 
 mutual
   inductive VRel : Nat → Fun.Value → CVal → Prop
     | int (n : Nat) (a : BitVec 64) : VRel n (.int a) (.int a)
     | con {n : Nat} {K : String} {vs : List Fun.Value} {Vs : List CVal} :
         VRelL n vs Vs → VRel n (.con K vs) (.con ⟨K, 0⟩ Vs)
-    | cont {n : Nat} {k : Fun.Stack} {cv : CVal} : KRel n k cv → VRel n (.cont k) cv
+    | cont {n : Nat} {k : Fun.Stack} {cv : CVal} : KAny n k cv → VRel n (.cont k) cv
     /-- the closure of `new { … }` -/
     | obj {n : Nat} {cs : Fun.Clauses} {envc : Fun.Env} {ρ0 ρ : CEnv} {cs' : Core.Clauses} :
         (∀ K cl, Fun.findClause K cs = some cl →
@@ -153,6 +167,62 @@ mutual
     | mk {n : Nat} {k : Fun.Stack} {c : Core.Term} {ρ : CEnv} {cv : CVal} :
         Core.cnsVal ρ c = .ok cv → KRel n k cv → Inert c → BoundOn (tfvTerm c []) ρ →
         Core.isCodata q.codataTypes (coreGetType c) = false → CRel n k c ρ
+    /-- a consumer of a codata type that has a value: a covariable (bound to a destructor value) or
+    a continuation lifted by `share` -/
+    | mkD {n : Nat} {k : Fun.Stack} {c : Core.Term} {ρ : CEnv} {cv : CVal} :
+        Core.cnsVal ρ c = .ok cv → KRelD n k cv → Inert c → BoundOn (tfvTerm c []) ρ →
+        Core.isCodata q.codataTypes (coreGetType c) = true → CRel n k c ρ
+    /-- the destructor `d(args; c')` as a consumer TERM: its arguments (pure terms) are not yet
+    evaluated, neither by the Fun machine (frame `dtorScrut`) nor by the Core machine -/
+    | dtor {n : Nat} {d : String} {args : Fun.Terms} {env : Fun.Env} {k : Fun.Stack} {ρ0 ρ : CEnv}
+        {c' : Core.Term} {as' : Core.Args} {ty : Core.Ty} {st st' : CompileState}
+        {gc : Fun.Clauses → Bool} {vs : List Fun.Value} :
+        compileSubst args st = .ok (as', st') → StOK q st' → ArgsNames args st →
+        pureFOs p gc args = true →
+        (∀ cs, gc cs = true → ∀ K cl, Fun.findClause K cs = some cl →
+          G cl.body ∧ cl.names.Nodup ∧ cl.ctx.map (·.var) = cl.names) →
+        pureArgs p args env = some vs →
+        EnvRel n (fvArgs args) env ρ0 → CRel n k c' ρ0 →
+        (∀ b ∈ tfvTerm c' [], b.var.name = sig → b.var.id < n) →
+        BoundOn (tfvTerm (.xtor .cns ⟨d, 0⟩ (argsSnoc as' .cns c') ty) []) ρ0 →
+        AgreeOn (tfvTerm (.xtor .cns ⟨d, 0⟩ (argsSnoc as' .cns c') ty) []) ρ0 ρ →
+        Core.isCodata q.codataTypes ty = true →
+        CRel n (.dtorScrut d args env :: k) (.xtor .cns ⟨d, 0⟩ (argsSnoc as' .cns c') ty) ρ
+  /-- consumer values of either kind -/
+  inductive KAny : Nat → Fun.Stack → CVal → Prop
+    | nc {n : Nat} {k : Fun.Stack} {cv : CVal} : KRel n k cv → KAny n k cv
+    | cd {n : Nat} {k : Fun.Stack} {cv : CVal} : KRelD n k cv → KAny n k cv
+  /-- stacks that expect a CODATA value (top frame: a destructor) ~ destructor values, and the
+  `μ~`-closures that forward their argument to such a consumer (continuations lifted by `share`) -/
+  inductive KRelD : Nat → Fun.Stack → CVal → Prop
+    /-- `□.d(vs)`: arguments evaluated on both sides -/
+    | dtorA {n : Nat} {d : String} {vs : List Fun.Value} {Vs : List CVal} {k : Fun.Stack}
+        {cv : CVal} :
+        VRelL n vs Vs → KAny n k cv →
+        KRelD n (.dtorApply d vs :: k) (.dtor ⟨d, 0⟩ (Vs ++ [cv]))
+    /-- `□.d(args)`: the Core machine has evaluated the (pure) arguments, the Fun machine will
+    evaluate them when the scrutinee returns -/
+    | dtorS {n : Nat} {d : String} {args : Fun.Terms} {env : Fun.Env} {vs : List Fun.Value}
+        {Vs : List CVal} {k : Fun.Stack} {cv : CVal} :
+        Fun.pureTerms args = true → pureArgs p args env = some vs → VRelL n vs Vs → KAny n k cv →
+        KRelD n (.dtorScrut d args env :: k) (.dtor ⟨d, 0⟩ (Vs ++ [cv]))
+    /-- a continuation lifted by `share` -/
+    | shared {n : Nat} {k : Fun.Stack} {ρ0 ρ : CEnv} {x : Core.Ident} {d : Core.Def} {ty : Core.Ty} :
+        d ∈ q.defs → d.ctx = tfvStmt d.body [] →
+        KRelD n k (.mutilde ρ0 x d.body) →
+        BoundOn ((tfvStmt (.call d.name (bindingsToArgs d.ctx) ty) []).filter (·.var ≠ x)) ρ0 →
+        AgreeOn ((tfvStmt (.call d.name (bindingsToArgs d.ctx) ty) []).filter (·.var ≠ x)) ρ0 ρ →
+        KRelD n k (.mutilde ρ x (.call d.name (bindingsToArgs d.ctx) ty))
+    /-- `μ~x.⟨x | c⟩` at a codata type -/
+    | eta {n : Nat} {k : Fun.Stack} {ρ0 ρ : CEnv} {x : Core.Ident} {ty ty' : Core.Ty}
+        {c : Core.Term} :
+        CRel n k c ρ0 → (∀ b ∈ tfvTerm c [], b.var ≠ x) →
+        Core.isCodata q.codataTypes ty = true →
+        Core.isCodata q.codataTypes (coreGetType c) = true →
+        (∀ b ∈ tfvTerm c [], b.var.name = sig → b.var.id < n) → (x.name = sig → x.id < n) →
+        BoundOn ((tfvStmt (.cut ty (.var .prd x ty') c) []).filter (·.var ≠ x)) ρ0 →
+        AgreeOn ((tfvStmt (.cut ty (.var .prd x ty') c) []).filter (·.var ≠ x)) ρ0 ρ →
+        KRelD n k (.mutilde ρ x (.cut ty (.var .prd x ty') c))
   inductive KRel : Nat → Fun.Stack → CVal → Prop
     /-- the top-level continuation of `main`: `μ~x. exit x` -/
     | main {n : Nat} {ρ : CEnv} {x : Core.Ident} {ty ty' : Core.Ty} :
@@ -172,7 +242,7 @@ mutual
     /-- `if □ ~ b {t} else {e}` -/
     | ifL {n : Nat} {srt : Fun.IfSort} {b t e : Fun.Term} {env : Fun.Env} {k : Fun.Stack}
         {ρ0 ρ : CEnv} {c : Core.Term} {i : Nat} {ty : Core.Ty} {B : Core.Term} {T E : Core.Stmt} :
-        G b → G t → G e → i < n →
+        G b → G t → G e → i < n → getType b = some .i64 →
         CompiledP q b .i64 B → Compiled q i t c T → Compiled q i e c E →
         EnvRel n (fv b ++ fv t ++ fv e) env ρ0 → CRel n k c ρ0 →
         BoundOn ((tfvStmt (.ifc (compileSort srt) (.var .prd (Core.sigmaName i) ty) B T E) []).filter
@@ -242,6 +312,7 @@ mutual
         {c : Core.Term} :
         CRel n k c ρ0 → (∀ b ∈ tfvTerm c [], b.var ≠ x) →
         Core.isCodata q.codataTypes ty = false →
+        Core.isCodata q.codataTypes (coreGetType c) = false →
         BoundOn ((tfvStmt (.cut ty (.var .prd x ty') c) []).filter (·.var ≠ x)) ρ0 →
         AgreeOn ((tfvStmt (.cut ty (.var .prd x ty') c) []).filter (·.var ≠ x)) ρ0 ρ →
         KRel n k (.mutilde ρ x (.cut ty (.var .prd x ty') c))
@@ -254,7 +325,7 @@ inductive SRel : Fun.State → Core.State → Prop
   | eval {t : Fun.Term} {env : Fun.Env} {k : Fun.Stack} {S : Core.State} {ρ0 : CEnv}
       {c : Core.Term} :
       G t → Compiled q S.fresh t c S.stmt →
-      EnvRel G q S.fresh (fv t) env ρ0 → CRel G q S.fresh k c ρ0 →
+      EnvRel G p q S.fresh (fv t) env ρ0 → CRel G p q S.fresh k c ρ0 →
       BoundOn (tfvStmt S.stmt []) ρ0 →
       AgreeOn (tfvStmt S.stmt []) ρ0 S.env →
       SRel (.eval t env k) S
